@@ -553,6 +553,7 @@ type DlgSpec struct {
 	NonceLen int        `json:"nonce_len,omitempty"`  // 0: generated
 	Meta     []MetaSpec `json:"meta,omitempty"`
 	UseRoot  bool       `json:"use_root,omitempty"`  // constructed with delegation.Root
+	PolFrom  string     `json:"pol_from,omitempty"`  // attenuation idiom: the policy is append(<that delegation object>.Policy(), own statements...); Pol lists all of them
 	PolSpare bool       `json:"pol_spare,omitempty"` // policy assembled with append(policy.Construct(a...), policy.Construct(b...)...): slice with spare capacity
 }
 
